@@ -130,3 +130,30 @@ void drv_c08_uismall(int tier, unsigned long seed, const char *extra) {
     rec_quiesce();
   }
 }
+
+/* c08_zero: powers that are EXACTLY 0 modulo m (the representative the reduction must return is 0, not m): m = q^2 * c with b a multiple of q (and of the
+   even part), so that b^e vanishes mod m from e = 2 on; q of 1..3, 20 and 60 limbs (REDC_1 / REDC_2 / REDC_N ranges via the modulus length), odd and even m,
+   negative base and modulus, exponents 2, 3, 20, 21, 2^64-1 and multi-limb; also b^e == m - 1, 1 (mod m) neighbours through b = m - 1, m + 1. */
+void drv_c08_zero(int tier, unsigned long seed, const char *extra) {
+  shard_t sh = shard_parse(extra); long x = 0; int qi, ci, j;
+  static const int qls[] = {1, 2, 3, 20, 60, 110};
+  static const uint64_t es[] = {2, 3, 20, 21, 64, 0xffffffffffffffffUL};
+  for (qi = 0; qi < (sh.pure ? 2 : (tier ? 6 : 5)); qi++) for (ci = 0; ci < 4; ci++) { int ei, bi;
+    x++; if (!MINE(sh, x)) continue;
+    rec_reset("c08_zero", x, seed);
+    for (j = 0; j < 7; j++) callf("mpz_init", j);
+    callf("drv_rndz", 4, qls[qi], (int)rnd_below(NKINDS), 0); callf("mpz_setbit", 4, (uint64_t)0);                 /* q odd */
+    callf("mpz_mul", 2, 4, 4);                                                                                    /* m = q^2 */
+    if (ci == 1) callf("mpz_mul_ui", 2, 2, (uint64_t)15); else if (ci == 2) callf("mpz_mul_2exp", 2, 2, (uint64_t)(1 + rnd_below(70))); else if (ci == 3) { callf("mpz_mul", 2, 2, 4); callf("mpz_neg", 2, 2); }
+    for (bi = 0; bi < 5; bi++) {
+      if (bi == 0) callf("mpz_set", 0, 4); else if (bi == 1) { callf("mpz_mul_ui", 0, 4, (uint64_t)(2 * (1 + rnd_below(1000)))); callf("mpz_mul_2exp", 0, 0, (uint64_t)40); }
+      else if (bi == 2) { callf("mpz_mul", 0, 4, 4); callf("mpz_mul_ui", 0, 0, (uint64_t)30); callf("mpz_neg", 0, 0); } else if (bi == 3) { callf("mpz_abs", 0, 2); callf("mpz_sub_ui", 0, 0, (uint64_t)1); } else { callf("mpz_abs", 0, 2); callf("mpz_add_ui", 0, 0, (uint64_t)1); }
+      if (ci == 2 && bi < 3) callf("mpz_mul_2exp", 0, 0, (uint64_t)36);
+      for (ei = 0; ei < 6; ei++) { if (qls[qi] > 3 && ei > 3 && bi > 1) continue;
+        shrinkz(3); callf("mpz_powm_ui", 3, 0, es[ei], 2); callf("mpz_set_ui", 1, es[ei]); if (ei == 5) callf("mpz_mul_2exp", 1, 1, (uint64_t)3); shrinkz(3); callf("mpz_powm", 3, 0, 1, 2);
+        if (ei == 0) { callf("mpz_set", 3, 0); callf("mpz_powm", 3, 3, 1, 2); callf("mpz_set", 3, 2); callf("mpz_powm", 3, 0, 1, 3); } }
+    }
+    for (j = 0; j < 7; j++) callf("mpz_clear", j);
+    rec_quiesce();
+  }
+}
